@@ -209,6 +209,8 @@ def run(ctx: Ctx):
                        f"real paths)", rel, n.lineno, sample=u(n)[:120])
         col.floor(f"score_pad_sites[{tag}]", n_, 1)
     _all_paths_done_ignores_empty_slots(ctx)
+    from .search_common import finished_mass_on_eos
+    finished_mass_on_eos(ctx, pkg.func(f"{MOD}::BeamSearch.forward"), "S3")
     _pad_block_takes_extents_from_its_partner(ctx)
     # shallow fusion: each component keeps its own state through split / extract / mix / merge
     from .search_common import fusion_component_lineage
@@ -322,6 +324,7 @@ def _mutants():
     from selftest.mutate import Mutant as M
     D = "_decoding.py"
     return [
+        M("finished-cleared-per-element", D, "log_probs_t = log_probs_t.masked_fill(eos_mask.unsqueeze(2), -float('inf'))", "log_probs_t = log_probs_t.masked_fill(done_mask.unsqueeze(2), -float('inf'))", "finished-path-cleared-under-its-own-mask"),
         M("filler-block-assumes-growth", "_decoding.py", "y_next = torch.cat([y_next, y_next.new_empty(y_next.size(0), N, rem)], 2)", "y_next = torch.cat([y_next, y_next.new_empty(tm1 + 1, N, rem)], 2)", "pad-block-extent"),
         M("waits-for-empty-slots", "_decoding.py", "done_mask = (eos_mask | (log_probs_prev == -float('inf'))).all(1, keepdim=True)", "done_mask = eos_mask.all(1, keepdim=True)", "all-paths-finished-counts-empty-slots"),
         M("fused-second-state-from-first", "_lm.py", "prev_second = self.second.extract_by_src(prev_second, src)", "prev_second = self.second.extract_by_src(prev_first, src)", "own-state"),
